@@ -311,6 +311,24 @@ func runC16(h *H) {
 		encOuts = append(encOuts, encOne(strings.Repeat("é", n), "long"))
 		encOuts = append(encOuts, encOne(strings.Repeat("a", n-1)+"😀"+strings.Repeat("&", 3), "long"))
 	}
+	// ---- the path a mailbox name really travels: imapwire's Encoder.Mailbox, then the peer's
+	// ExpectMailbox (which wrap the encoder / decoder above) ----
+	for _, name := range []string{"R&D", "a&b", "&", "&&", "AT&T", "Sales & Marketing", "a&-b", "&-", "Entwürfe", "台北/日本語", "x&y/é", "~peter/mail/台北", "plain", "a b", "-&-"} {
+		for _, wc := range []wcfg{{Client: true}, {Client: true, QuotedUTF8: true}, {Client: false}} {
+			out, err := wireEncode(wc, func(enc *shim.Encoder) { enc.Mailbox(name) })
+			desc := map[string]interface{}{"mailbox": name, "wire": string(out)}
+			if err != nil {
+				h.Fail("mailbox-wire:encode", fmt.Sprintf("Encoder.Mailbox(%q): %v", name, err), desc)
+				continue
+			}
+			o := wireDecode(6, !wc.Client, append(append([]byte(nil), out...), " x\r\n"...))
+			if o.Class != 0 || o.Val != name {
+				h.Fail("mailbox-wire:roundtrip", fmt.Sprintf("mailbox %q written as %q is read back as %q (class %d)", name, out, o.Val, o.Class), desc)
+			}
+			h.Eval("wire|" + name)
+			h.Hist("src:mailbox-wire")
+		}
+	}
 	// ---- decoder ----
 	for _, t := range []string{"", "&", "&-", "&&", "&AGE", "&AGE-", "&AGEAYg-", "&AOk-", "&AOk-&AOk-", "&AOk-a&AOk-", "&AOk-&-", "&-&AOk-", "&AOk=-", "&AOk", "&AO-", "&A-", "&AA-", "&AAA-", "&2D3eAA-", "&2D0-", "&3gDYPQ-", "&2D3YPQ-", "&,,8-", "&AOk\r\n-", "&AO\nk-", "a\x80", "a\x1f", "\x7f", "&AOkA-", "&AOkAAA-", "&AOl-", "&AOm-", "&AOn-", "&AGE=-", "&AOk--", "-", "a-b", "&AAAAAA-", "&ACYAJg-", "&ImIAJg-"} {
 		decOne(t, "corpus")
